@@ -1,11 +1,227 @@
 import SageModel.Proto
+import SageModel.Model.C03
 
-/-! Driver ops for C03 (stub: no ops yet). -/
+/-! Driver ops for C03.
+
+```
+bss   [n f32…] lo hi                                   | L R
+page  sortmode kinds minIon [nB B…] [npep (mass seqhex)…] [nq query…]   | db-export results   (or `panic`)
+dbinv (same request format, usually nq = 0)
+
+query     = ptk plo phi  ftk flo fhi  preMass fragMz charge        (tolerance kind 0 = ppm, 1 = Da, 2 = Pct)
+db-export = [npep mass…] [nion (pep mz)…]  then per B:  [nfrag (pep mz)…] [nmin minv…]  then per query:
+            fragLo fragHi preLo preHi [cnt (pep mz)…]             (pairs sorted by (pep, mz bits))
+```
+`masses`, `frags`, `min_value` are the public fields of the REAL `IndexedDatabase` built with bucket size
+`B`; `ions` is the flat ion list in generation order (recomputed by the harness through `IonSeries`).
+
+Model reply for `page`/`dbinv`: per B, per query `fragLo fragHi preLo preHi [cnt pairs…]` computed by the
+model's `window`, `buildIndex B ions` and `pageSearch` (all at `Float32`, compared exactly; no transcendental
+functions are involved).  `agree` additionally requires that the model's `pageSearch` run on the REAL
+layout gives the same answer.
+
+Spec verdicts (evaluated on the implementation's reply):
+`bad:panic`, `bad:dbinv-<clause>@B`, `bad:frag-multiset@B` (stored fragments are not a permutation of the
+generated ions), `bad:scan-missing@B,q` / `bad:scan-extra@B,q` (result ≠ linear scan of the stored
+fragments with the implementation's own windows), `bad:bucket-dependence@q` (two bucket sizes, different answers);
+for `bss`: `bad:range`, `bad:covers`, `bad:tight`, `bad:exit`.
+-/
 namespace Sage.C03
 open Sage.Proto
 
+abbrev F := Float32
+
+def million : F := Float32.ofNat 1000000
+def hundred : F := Float32.ofNat 100
+
+def pairOf (f : Frag F) : Nat × Nat := (f.pep, f.mz.toBits.toNat)
+def pairLe (a b : Nat × Nat) : Bool := a.1 < b.1 || (a.1 == b.1 && a.2 ≤ b.2)
+def sortPairs (l : List (Nat × Nat)) : List (Nat × Nat) := l.mergeSort pairLe
+
+def outPair (p : Nat × Nat) : String := s!"{p.1} {p.2}"
+
+/-- multiset difference of two sorted lists: (#only in a, #only in b) -/
+def diffSorted : Nat → List (Nat × Nat) → List (Nat × Nat) → Nat × Nat
+  | 0, _, _ => (0, 0)
+  | _, [], b => (0, b.length)
+  | _, a, [] => (a.length, 0)
+  | f+1, x :: a, y :: b =>
+    if x == y then diffSorted f a b
+    else if pairLe x y then let r := diffSorted f a (y :: b); (r.1 + 1, r.2)
+    else let r := diffSorted f (x :: a) b; (r.1, r.2 + 1)
+
+def pTol : P (Tol F) := do
+  let k ← nat
+  let lo ← f32
+  let hi ← f32
+  match k with
+  | 0 => pure (.ppm lo hi)
+  | 1 => pure (.da lo hi)
+  | 2 => pure (.pct lo hi)
+  | _ => failure
+
+structure Qry where
+  preTol : Tol F
+  fragTol : Tol F
+  preMass : F
+  fragMz : F
+  charge : Nat
+
+def Qry.panics (q : Qry) : Bool := match q.fragTol with | .pct _ _ => true | _ => false
+
+def pQry : P Qry := do
+  let pt ← pTol
+  let ft ← pTol
+  let pm ← f32
+  let mz ← f32
+  let c ← nat
+  pure { preTol := pt, fragTol := ft, preMass := pm, fragMz := mz, charge := c }
+
+def pFrag : P (Frag F) := do
+  let p ← nat
+  let m ← f32
+  pure { pep := p, mz := m }
+
+def pPair : P (Nat × Nat) := do
+  let p ← nat
+  let m ← nat
+  pure (p, m)
+
+structure Req where
+  Bs : List Nat
+  npep : Nat
+  qs : List Qry
+
+def pReq : P Req := do
+  let _sortmode ← nat
+  let _kinds ← nat
+  let _minIon ← nat
+  let bs ← list nat
+  let peps ← list (do let m ← f32; let s ← tok; pure (m, s))
+  let qs ← list pQry
+  pure { Bs := bs, npep := peps.length, qs := qs }
+
+structure QRes where
+  win : List Nat          -- fragLo fragHi preLo preHi (bits)
+  res : List (Nat × Nat)
+
+structure BRes where
+  frags : List (Frag F)
+  minv : List F
+  res : List QRes
+
+structure Impl where
+  masses : List F
+  ions : List (Frag F)
+  per : List BRes
+
+def pImpl (nB nq : Nat) : P Impl := do
+  let masses ← list f32
+  let ions ← list pFrag
+  let per ← listN (do
+      let frags ← list pFrag
+      let minv ← list f32
+      let res ← listN (do
+          let w ← listN nat 4
+          let r ← list pPair
+          pure ({ win := w, res := r } : QRes)) nq
+      pure ({ frags := frags, minv := minv, res := res } : BRes)) nB
+  pure { masses := masses, ions := ions, per := per }
+
+def winBits (w : Q F) : List Nat :=
+  [w.fragLo.toBits.toNat, w.fragHi.toBits.toNat, w.preLo.toBits.toNat, w.preHi.toBits.toNat]
+
+def qOfBits : List Nat → Option (Q F)
+  | [a, b, c, d] => some { fragLo := Float32.ofBits a.toUInt32, fragHi := Float32.ofBits b.toUInt32,
+                           preLo := Float32.ofBits c.toUInt32, preHi := Float32.ofBits d.toUInt32 }
+  | _ => none
+
+def modelWindow (q : Qry) : Option (Q F) :=
+  window million hundred q.preTol q.fragTol q.preMass q.fragMz (Float32.ofNat q.charge)
+
+def outQRes (r : QRes) : String :=
+  " ".intercalate (r.win.map toString) ++ " " ++ outList outPair r.res
+
+/-- first `some` of a list of checks -/
+def firstBad : List (Unit → Option String) → String
+  | [] => "ok"
+  | c :: cs => match c () with
+    | some s => "bad:" ++ s
+    | none => firstBad cs
+
+def handlePage (args impl : List String) : Option Reply := do
+  let req ← run pReq args
+  let expectPanic := req.Bs.any (· == 0) || (!req.Bs.isEmpty && req.qs.any Qry.panics)
+  if impl == ["panic"] then
+    return { model := if expectPanic then "panic" else "no-panic", agree := expectPanic,
+             spec := if expectPanic then "ok" else "bad:panic" }
+  if expectPanic then
+    return { model := "panic", agree := false, spec := "na" }
+  match run (pImpl req.Bs.length req.qs.length) impl with
+  | none => return { model := "unparsable-impl-reply", agree := false, spec := "na" }
+  | some im =>
+    let masses := im.masses.toArray
+    let wins : List (Option (Q F)) := req.qs.map modelWindow
+    -- the model: build the index from the generated ions with each B, then search
+    let modelPer : List (List QRes × Bool) := (req.Bs.zip im.per).map fun (B, br) =>
+      match buildIndex B im.ions with
+      | none => ([], false)
+      | some (minvM, fragsM) =>
+        let rs := wins.map fun w => match w with
+          | none => (({ win := [], res := [] } : QRes), true)
+          | some w =>
+            let rB := sortPairs ((pageSearchC masses minvM fragsM B w).map pairOf)
+            -- the same `pageSearch` on the layout the REAL builder produced
+            let rA := sortPairs ((pageSearchC masses br.minv.toArray br.frags B w).map pairOf)
+            ({ win := winBits w, res := rB }, rA == rB)
+        (rs.map (·.1), rs.all (·.2))
+    let model := " ".intercalate (modelPer.map fun (rs, _) => " ".intercalate (rs.map outQRes))
+    let implStr := " ".intercalate (im.per.map fun br => " ".intercalate (br.res.map outQRes))
+    let agree := words model == words implStr && modelPer.all (·.2)
+    -- the spec, on the implementation's reply
+    let ionsSorted := sortPairs (im.ions.map pairOf)
+    let perB : List (Nat × BRes) := req.Bs.zip im.per
+    let checks : List (Unit → Option String) :=
+      (perB.map fun ((B, br) : Nat × BRes) => fun (_ : Unit) =>
+        let c := dbInvClause masses br.minv.toArray br.frags B
+        if c != "" then some s!"dbinv-{c}@B={B}" else
+        if sortPairs (br.frags.map pairOf) != ionsSorted then some s!"frag-multiset@B={B}" else
+        ((List.range br.res.length).zip br.res).findSome? fun (qi, qr) =>
+          match qOfBits qr.win with
+          | none => some s!"window@B={B},q={qi}"
+          | some w =>
+            let want := sortPairs ((scan masses br.frags w).map pairOf)
+            let d := diffSorted (want.length + qr.res.length + 1) want qr.res
+            if d.1 != 0 then some s!"scan-missing@B={B},q={qi}"
+            else if d.2 != 0 then some s!"scan-extra@B={B},q={qi}"
+            else if sortPairs qr.res != qr.res then some s!"unsorted-reply@B={B},q={qi}"
+            else none) ++
+      [fun (_ : Unit) =>
+        match im.per with
+        | [] => none
+        | b0 :: rest =>
+          (List.range req.qs.length).findSome? fun qi =>
+            if rest.all (fun b => (b.res[qi]?.map (·.res)) == (b0.res[qi]?.map (·.res))) then none
+            else some s!"bucket-dependence@q={qi}"]
+    return { model := if (words model).isEmpty then "-" else " ".intercalate (words model), agree := agree,
+             spec := firstBad checks }
+
 def handle (op : String) (args impl : List String) : Option Reply :=
   match op with
+  | "bss" => do
+    let (xs, lo, hi) ← run (do let xs ← list f32; let lo ← f32; let hi ← f32; pure (xs, lo, hi)) args
+    let arr := xs.toArray
+    let r := binarySearchSlice arr lo hi
+    let model := s!"{r.1} {r.2}"
+    let spec : String :=
+      match run (do let l ← nat; let r ← nat; pure (l, r)) impl with
+      | none => if impl == ["panic"] then "bad:panic" else "na"
+      | some (L, R) =>
+        let c := bssClause arr lo hi L R
+        if c == "" then "ok" else "bad:" ++ c
+    pure (exact model (" ".intercalate impl) spec)
+  | "page" => handlePage args impl
+  | "dbinv" => handlePage args impl
   | _ => none
 
 end Sage.C03
